@@ -97,6 +97,15 @@ var platformVars = []string{"python_version", "python_full_version", "os_name", 
 	"platform_release", "platform_version"}
 var allOps = []string{"==", "!=", "<", "<=", ">", ">=", "~=", "===", "in", "not in"}
 
+var (
+	litsVersion = []string{"3.9", "3.8", "3.10", "2.7", "3", "3.9.6", "3.9.6rc1", "3.9.*", "3.9.0", "3.9.7", "4", "3.9.6.post1", "3.9.dev1", "3.*", "abc", "3.9.5", "3.10.0a1"}
+	litsRelease = []string{"6.9.10-1rodete5-amd64", "6.9.10", "5", "6", "amd64", "rodete", "7.0", "6.9.10-1"}
+	litsPlatVer = []string{"SMP", "Debian", "#1", "Ubuntu", "6.9.10", "#1 SMP PREEMPT_DYNAMIC Debian 6.9.10-1rodete5 (2024-09-04)"}
+	litsString  = []string{"linux", "posix", "x86_64", "cpython", "CPython", "Linux", "win32", "nt", "lin", "3.9", "6.9.10", "linux2", "LINUX", "java", "darwin", "x86", "Lin", "cpython3", "a b"}
+	litsAny     = []string{"3.9", "linux", "1.0", "x", "3.9.*", "a'b", "Linux", "posix", "3.9rc1", "a;b", "x]y[", "(z)", "1,2", ";", "<=>!~"}
+	litsExtra   = []string{"x", "test", "y", "X", "dev"}
+)
+
 func genLeaf(r *rand.Rand) *M {
 	m := &M{K: "cmp", W0: ws(r), W1: ws(r), W2: ws(r), Q: pick(r, "'", `"`)}
 	if r.Intn(8) == 0 {
@@ -105,22 +114,22 @@ func genLeaf(r *rand.Rand) *M {
 		if r.Intn(8) == 0 {
 			m.Op = allOps[r.Intn(len(allOps))]
 		}
-		m.Lit = pick(r, "x", "test", "y", "X", "dev")
+		m.Lit = pick(r, litsExtra...)
 	} else {
 		m.Var = platformVars[r.Intn(len(platformVars))]
 		m.Op = allOps[r.Intn(len(allOps))]
 		switch m.Var {
 		case "python_version", "python_full_version", "implementation_version":
-			m.Lit = pick(r, "3.9", "3.8", "3.10", "2.7", "3", "3.9.6", "3.9.6rc1", "3.9.*", "3.9.0", "3.9.7", "4", "3.9.6.post1", "3.9.dev1", "3.*", "abc", "3.9.5", "3.10.0a1")
+			m.Lit = pick(r, litsVersion...)
 		case "platform_release":
-			m.Lit = pick(r, "6.9.10-1rodete5-amd64", "6.9.10", "5", "6", "amd64", "rodete", "7.0", "6.9.10-1")
+			m.Lit = pick(r, litsRelease...)
 		case "platform_version":
-			m.Lit = pick(r, "SMP", "Debian", "#1", "Ubuntu", "6.9.10", "#1 SMP PREEMPT_DYNAMIC Debian 6.9.10-1rodete5 (2024-09-04)")
+			m.Lit = pick(r, litsPlatVer...)
 		default:
-			m.Lit = pick(r, "linux", "posix", "x86_64", "cpython", "CPython", "Linux", "win32", "nt", "lin", "3.9", "6.9.10", "linux2", "LINUX", "java", "darwin", "x86", "Lin", "cpython3", "a b")
+			m.Lit = pick(r, litsString...)
 		}
 		if r.Intn(12) == 0 { // any literal with any variable
-			m.Lit = pick(r, "3.9", "linux", "1.0", "x", "3.9.*", "a'b", "Linux", "posix", "3.9rc1", "a;b", "x]y[", "(z)", "1,2", ";", "<=>!~")
+			m.Lit = pick(r, litsAny...)
 		}
 	}
 	if strings.Contains(m.Lit, m.Q) {
@@ -261,6 +270,25 @@ func run(c *fw.Ctx) {
 	r := c.Rng
 	env := refEnv()
 	var py []pyQuery
+	// The framework keeps at most 200 failures and stops recording unclassified ones once
+	// the list is full, so failures in catalogued classes are handed to it only up to a
+	// small quota per class; the rest are evaluated here and tallied.
+	classSeen := map[string]int{}
+	checkMarker := func(i int, line, res string) {
+		bad, _ := recheck("marker-ref", []string{line}, []string{res})
+		if !bad {
+			c.Tally(1)
+			return
+		}
+		cls := classify("marker-ref", []string{line}, []string{res})
+		if cls != "" && classSeen[cls] >= 15 {
+			c.Tally(1)
+			c.Count("known-class-beyond-quota:" + cls)
+			return
+		}
+		classSeen[cls]++
+		c.Check("marker-ref", i)
+	}
 
 	// --- names
 	nameCheck := func(x string) {
@@ -348,7 +376,7 @@ func run(c *fw.Ctx) {
 		raw := m.render() + ws(r)
 		line := markerLine("marker", raw, extras, m)
 		i, res := c.Op(line)
-		c.Check("marker-ref", i)
+		checkMarker(i, line, res)
 		c.Count("marker:" + res)
 		total++
 		cls := markerClasses(m, env, extras)
@@ -381,6 +409,34 @@ func run(c *fw.Ctx) {
 			j, res2 := c.Op(markerLine("marker", mutate(r, raw), extras, nil))
 			c.Check("nopanic", j)
 			c.Count("marker-malformed:" + strings.Fields(res2)[0])
+		}
+	}
+	// small-scope exhaustive: every variable x operator x literal x side as a single comparison
+	allLits := sortedSet(append(append(append(append(append(append([]string{}, litsVersion...), litsRelease...), litsPlatVer...), litsString...), litsAny...), litsExtra...))
+	for _, v := range append(append([]string{}, platformVars...), "extra") {
+		for _, op := range allOps {
+			for _, lit := range allLits {
+				for _, flip := range []bool{false, true} {
+					m := &M{K: "cmp", Var: v, Op: op, Lit: lit, Q: "'", W1: " ", W2: " ", Flip: flip}
+					if strings.Contains(lit, "'") {
+						m.Q = `"`
+					}
+					if op == "not in" {
+						m.W3 = " "
+					}
+					var extras []string
+					if v == "extra" {
+						extras = []string{"x"}
+					}
+					line := markerLine("marker", m.render(), extras, m)
+					i, res := c.Op(line)
+					checkMarker(i, line, res)
+					c.Count("leaf-exhaustive:" + strings.Fields(res)[0])
+					if len(markerClasses(m, env, extras)) == 0 {
+						c.Count("leaf-exhaustive:inside-partial-hypotheses")
+					}
+				}
+			}
 		}
 	}
 	c.Note(fmt.Sprintf("markers inside the partial theorem's hypotheses: %d of %d", inside, total))
